@@ -243,3 +243,65 @@ def pinning_tracking_and_normalisation(ctx):
     ctx.stats['terms_compared'] += len(got)
     ctx.check(got == want, 'normalize', 'weights / norm * mass, zero-sum handling',
               'normalize (behind the normalized() constraint) differs from its definition: %s' % SB.diff(got, want), f, f.node)
+
+
+@rule('C16.h', min_instances=4)
+def bounded_membership_and_addressing(ctx):
+    """bounded(): an entry is out of bounds exactly when it lies in none of the CLOSED intervals (lo <= v and v <= hi, so an entry at an interval end is already in the target set and is left alone); only the out-of-bounds entries restricted to `index` are ever stored; the work is done on a copy (numpy.array) of the input"""
+    f = ctx.func(CN + ':bounded')
+    params = [a.arg for a in f.node.args.args]
+    ctx.need(params[:3] == ['seq', 'bounds', 'index'], 'bounded signature changed')
+    SEQ, IDX = ('name', 'seq'), ('name', 'index')
+    b = T.Builder()
+    at_first = None
+    stores = []
+    copied = None
+    top = set(id(x) for x in f.node.body)
+    for st in stmts_of(f.node):
+        if isinstance(st, ast.Assign) and len(st.targets) == 1:
+            tg = st.targets[0]
+            if isinstance(tg, ast.Name) and tg.id == 'seq' and copied is None:
+                v = st.value
+                copied = isinstance(v, ast.Call) and callee_text(v) in ('array', 'numpy.array', 'np.array') and \
+                    not any(k.arg == 'copy' and const_value(k.value) is False for k in v.keywords) and \
+                    len(v.args) >= 1 and isinstance(v.args[0], ast.Name) and v.args[0].id == 'seq'
+                ctx.check(copied, 'bounded#copy', 'seq = array(seq) (a copy) before any store', 'bounded no longer copies its input before writing into it: %s' % norm_stmt(st), f, st)
+                continue
+            if isinstance(tg, ast.Name) and tg.id == 'at' and at_first is None:
+                at_first = (st, T.simp(b.t(st.value)))
+            if isinstance(tg, ast.Subscript) and isinstance(tg.value, ast.Name) and tg.value.id == 'seq':
+                stores.append((st, T.simp(b.t(tg.slice))))
+                continue
+        # parameters stay symbolic (their normalisations - index = (index,), bounds = asarray(bounds).T - keep their meaning);
+        # only unguarded plain locals are substituted
+        if id(st) in top and isinstance(st, ast.Assign) and len(st.targets) == 1 and isinstance(st.targets[0], ast.Name) and st.targets[0].id not in params:
+            b.exec_stmt(st)
+    ctx.need(copied is not None, 'bounded: seq is never rebound to a copy')
+    ctx.need(at_first is not None, 'bounded: no out-of-bounds index set `at`')
+    st0, at0 = at_first
+    lo_ok = hi_ok = strict = False
+    for sub in T.subterms(at0):
+        if isinstance(sub, tuple) and sub and sub[0] == 'cmp' and SEQ in sub[2:]:
+            other = sub[3] if sub[2] == SEQ else sub[2]
+            if sub[1] == '<':
+                strict = True
+            if sub[1] == '<=' and sub[3] == SEQ and other == ('name', '_b0'):
+                lo_ok = True
+            if sub[1] == '<=' and sub[2] == SEQ and other == ('name', '_b1'):
+                hi_ok = True
+    conj = any(isinstance(sub, tuple) and sub and sub[0] in ('bitand', 'and') and len(sub) == 3 and all(isinstance(x, tuple) and x[0] == 'cmp' for x in sub[1:])
+               for sub in T.subterms(at0))
+    over = any(isinstance(sub, tuple) and sub and sub[0] in ('listcomp', 'genexp') and len(sub) > 2 and any(
+        g[0] == ('tuple', ('name', '_b0'), ('name', '_b1')) and g[1] == ('attr', ('name', 'bounds'), 'T') for g in sub[2]) for sub in T.subterms(at0))
+    ctx.stats['terms_compared'] += 1
+    ctx.check(lo_ok and hi_ok and conj and over and not strict, 'bounded#membership', 'in an interval iff (lo <= v) & (v <= hi) for (lo, hi) in bounds.T',
+              'bounded decides membership with %s: an entry on an interval end is no longer "inside" (it is re-drawn or moved to another interval)' % T.show(at0)[:200], f, st0)
+    negated = at0[0] == 'sub' and at0[1][0] == 'call' and T.show(at0[1][1]) == 'where' and at0[1][2] and at0[1][2][0][0] == 'cmp' and \
+        at0[1][2][0][1] == '==' and ('const', False) in at0[1][2][0][2:]
+    ctx.check(negated, 'bounded#outside', 'at = where(<in some interval> == False)', 'the out-of-bounds set is no longer the complement of the union of intervals: %s' % T.show(at0)[:200], f, st0)
+    want = ('ifexp', T.mk_cmp('is', IDX, ('const', None)), at0, ('call', ('name', 'intersect1d'), (at0, IDX), ()))
+    ctx.need(len(stores) >= 4, 'bounded: expected >= 4 stores into seq, found %d' % len(stores))
+    for st, ix in stores:
+        ctx.stats['terms_compared'] += 1
+        ctx.check(ix == want, 'bounded#store', 'seq[<out of bounds, restricted to index>] = ...',
+                  'bounded stores into seq[%s]: entries that are inside their interval or not selected by index are rewritten' % T.show(ix)[:120], f, st)
